@@ -1,5 +1,6 @@
 pub mod cli;
 pub mod exec;
+pub mod interprec;
 pub mod lex;
 pub mod lexrec;
 pub mod lint;
@@ -44,6 +45,7 @@ pub fn record(family: &str, args: &[String]) -> i32 {
     std::panic::set_hook(Box::new(|_| {}));
     match family {
         "lex" => lexrec::record(args),
+        "interp" => interprec::record(args),
         "cli" => cli::record(args),
         _ => {
             eprintln!("no recorder for family {}", family);
